@@ -3,6 +3,7 @@ import FordModel.Reader
 import FordModel.Admonition
 import FordModel.Meta
 import FordModel.Attach
+import FordModel.MdState
 import FordModel.Dispatch.C02
 namespace Ford
 open Proto
@@ -21,6 +22,19 @@ def linesOut (ls : List Str) : List Str := ls.map (fun l => "L:".toList ++ l)
 def admOut (a : Adm) : Str :=
   a.ty ++ [','] ++ showNat a.start ++ [','] ++ (match a.stop with | some e => showNat e | none => "-1".toList)
 
+/-- request fields `E` (next document) / `L<line>` -> the documents -/
+def mdDocs : List Str → List (List Str) → List (List Str)
+  | [], acc => (acc.map List.reverse).reverse
+  | f :: fs, acc =>
+    match f, acc with
+    | 'E' :: _, _ => mdDocs fs ([] :: acc)
+    | 'L' :: l, d :: ds => mdDocs fs ((l :: d) :: ds)
+    | _, _ => mdDocs fs acc
+
+def mdOutFields (o : MdOut) : List Str :=
+  "E".toList :: (o.links.map (fun l => "H:".toList ++ l) ++ o.foots.map (fun l => "F:".toList ++ l)
+    ++ o.titles.map (fun l => "A:".toList ++ l))
+
 def dispatchC03 : List Str → Option (List Str)
   | cmd :: args =>
     if cmd == "c03.adm".toList then
@@ -35,8 +49,11 @@ def dispatchC03 : List Str → Option (List Str)
       let r := metaSplit args
       some ("ok".toList :: metaOut r.1 ++ linesOut r.2)
     else if cmd == "c03.rmeta".toList then
-      let r := readMetadata Gen.entityFields args
-      some ("ok".toList :: metaOut r.1 ++ linesOut r.2)
+      match args with
+      | v :: doc =>
+        let r := readMetadata (v.contains 'o') Gen.entityFields doc
+        some ("ok".toList :: metaOut r.1 ++ linesOut r.2)
+      | _ => some ["bad-request".toList]
     else if cmd == "c03.dedent".toList then
       some ("ok".toList :: dedent args)
     else if cmd == "c03.pipeline".toList then
@@ -49,9 +66,13 @@ def dispatchC03 : List Str → Option (List Str)
         match readAll { doc := d, pre := p, alt := a, preAlt := pa } lines with
         | .ok items =>
           some ("ok".toList ::
-            (entDocs Gen.entityFields (v == "repaired".toList) (attach d items)).flatMap
+            (entDocs (v.contains 'o') Gen.entityFields (v.contains 'm') (attach d items)).flatMap
               (fun e => ("E:".toList ++ e.1) :: (metaOut e.2.1 ++ linesOut e.2.2)))
         | .error e => some ["err".toList, rerrName e]
+      | _ => some ["bad-request".toList]
+    else if cmd == "c03.mdstate".toList then
+      match args with
+      | v :: fs => some ("ok".toList :: (markdownAll (v.contains 'a') mdEmpty (mdDocs fs [])).flatMap mdOutFields)
       | _ => some ["bad-request".toList]
     else if cmd == "c03.classify".toList then
       match args with
